@@ -505,6 +505,12 @@ func F6oInj(sources []string, allPositions bool) []*OvProg {
 			npos := 1
 			if allPositions {
 				npos = len(fn.Body) + 1
+				for i, st := range fn.Body { // never after a top-level return (no unreachable code by construction)
+					if _, isRet := st.(*Return); isRet {
+						npos = i + 1
+						break
+					}
+				}
 			}
 			for pos := 0; pos < npos; pos++ {
 				idx++
